@@ -30,8 +30,14 @@ func sizeMessageSet(mi *MessageInfo, p pointer, opts marshalOptions) (size int) 
 			// Don't expand the extension, instead use the buffer to calculate size
 			if lb := x.lazyBuffer(); lb != nil {
 				// We got hold of the buffer, so it's still lazy.
-				// Don't count the tag size in the extension buffer, it's already added.
-				size += protowire.SizeTag(messageset.FieldMessage) + len(lb) - xi.tagsize
+				// The buffer holds one record (tag, length, bytes) per occurrence of
+				// the item in the input. Each record becomes one message field of the
+				// item, so replace each record's tag by the tag of FieldMessage.
+				for len(lb) > 0 {
+					_, n := protowire.ConsumeBytes(lb[xi.tagsize:])
+					size += protowire.SizeTag(messageset.FieldMessage) + n
+					lb = lb[xi.tagsize+n:]
+				}
 				continue
 			}
 		}
@@ -98,10 +104,17 @@ func marshalMessageSetField(mi *MessageInfo, b []byte, x ExtensionField, opts ma
 	if fullyLazyExtensions(opts) {
 		// Don't expand the extension if it's still in wire format, instead use the buffer content.
 		if lb := x.lazyBuffer(); lb != nil {
-			// The tag inside the lazy buffer is a different tag (the extension
-			// number), but what we need here is the tag for FieldMessage:
-			b = protowire.AppendVarint(b, protowire.EncodeTag(messageset.FieldMessage, protowire.BytesType))
-			b = append(b, lb[xi.tagsize:]...)
+			// The buffer holds one record (tag, length, bytes) per occurrence of
+			// the item in the input. The tag inside the lazy buffer is a different
+			// tag (the extension number), but what we need here is the tag for
+			// FieldMessage. Repeated message fields of an item are merged by the
+			// decoder.
+			for len(lb) > 0 {
+				_, n := protowire.ConsumeBytes(lb[xi.tagsize:])
+				b = protowire.AppendVarint(b, protowire.EncodeTag(messageset.FieldMessage, protowire.BytesType))
+				b = append(b, lb[xi.tagsize:xi.tagsize+n]...)
+				lb = lb[xi.tagsize+n:]
+			}
 			b = messageset.AppendFieldEnd(b)
 			return b, nil
 		}
